@@ -84,6 +84,9 @@ pub fn profile(name: &str) -> Option<Profile> {
             w: [45, 5, 5, 35, 2, 0, 3, 1, 0, 0, 0, 0], ..base },
         "mutate" => Profile { name: "mutate", universe: 5, len: 80, w: [20, 5, 8, 5, 45, 5, 2, 2, 2, 1, 0, 0], ..base },
         "insert" => Profile { name: "insert", universe: 5, len: 60, w: [40, 35, 5, 8, 4, 6, 2, 0, 0, 0, 0, 0], ..base },
+        "huge" => Profile { name: "huge", universe: 6000, len: 9000, full: false, big_limit: true,
+            w: [72, 3, 6, 12, 2, 0, 3, 0, 0, 0, 0, 0], ..base },
+        "readers" => Profile { name: "readers", universe: 12, len: 60, w: [30, 5, 10, 8, 6, 2, 4, 2, 3, 1, 0, 30], ..base },
         "capacity" => Profile { name: "capacity", universe: 120, len: 500, w: [50, 5, 4, 22, 2, 0, 25, 1, 1, 0, 0, 0], big_limit: true, ..base },
         "retain" => Profile { name: "retain", universe: 8, len: 60, w: [40, 5, 10, 5, 5, 2, 2, 30, 0, 1, 0, 0], ..base },
         "iter" => Profile { name: "iter", universe: 7, len: 50, w: [40, 5, 8, 6, 4, 2, 2, 2, 30, 1, 0, 0], allow_consume: true, ..base },
@@ -104,6 +107,13 @@ pub struct Gen<'a> {
 impl<'a> Gen<'a> {
     pub fn limit(&mut self) -> usize {
         let o = self.ovh;
+        if self.prof.name == "huge" {
+            return match self.rng.below(3) {
+                0 => usize::MAX,
+                1 => o * 5000 + 3,
+                _ => o * 2500 + self.rng.below(o as u64) as usize,
+            };
+        }
         if self.prof.big_limit {
             return match self.rng.below(4) {
                 0 => usize::MAX,
@@ -161,6 +171,10 @@ impl<'a> Gen<'a> {
 
     /// value heap size chosen relative to the state: boundaries of every test in the code
     fn value_heap(&mut self, snap: &Snap, kh: usize, replacing: Option<usize>) -> usize {
+        if self.prof.name == "huge" && !self.rng.chance(1, 3000) {
+            // many small entries: the point of this family is the number of entries
+            return self.rng.below(8) as usize;
+        }
         let o = self.ovh + kh;
         let max = snap.max;
         let free = max.saturating_sub(snap.cur) + replacing.unwrap_or(0);
@@ -324,7 +338,13 @@ impl<'a> Gen<'a> {
                 }
                 OpKind::Nop
             }
-            _ => OpKind::Dbg,
+            _ => {
+                if self.rng.chance(1, 3) {
+                    OpKind::Readers { threads: 2 + self.rng.below(3) as u8, seed: self.rng.below(1 << 30) }
+                } else {
+                    OpKind::Dbg
+                }
+            }
         };
         Op::On { c, op }
     }
@@ -343,6 +363,7 @@ pub fn panic_kinds() -> [Kind; 8] {
 pub fn hashers_for(profile: &str) -> Vec<HKind> {
     match profile {
         "churn" | "capacity" => vec![HKind::Ident, HKind::Const, HKind::Mix, HKind::Mod4, HKind::Default],
+        "huge" => vec![HKind::Mix, HKind::Ident, HKind::Default],
         _ => vec![HKind::Mix, HKind::Const, HKind::Mod4, HKind::Ident, HKind::Default],
     }
 }
